@@ -587,7 +587,7 @@ Section C03.
                               tl <- go rest ;; Ok ((f.(sf_name), y) :: tl)
                           end) k.(sc_fields) ;;
                   Ok (VObj c r)
-              | _ => match k.(sc_fields) with [] => Ok (VObj c []) | _ => Exn XValueError end
+              | _ => Exn XValueError               (* non-mapping argument *)
               end
           end
       end.
@@ -675,7 +675,7 @@ Section C03.
                           end) k.(sc_fields) ;;
                   Ok (VObj c r)
               | VStr s => ref_dec_str E P t s
-              | _ => match k.(sc_fields) with [] => Ok (VObj c []) | _ => Exn XValueError end
+              | _ => Exn XValueError
               end
           end
       end.
